@@ -299,3 +299,4 @@ mod tests {
 #[cfg(p2panda_p2panda_verif)] #[doc(hidden)] pub mod verif_c07;
 #[cfg(p2panda_p2panda_verif)] #[doc(hidden)] pub mod verif_c40;
 #[cfg(p2panda_p2panda_verif)] #[doc(hidden)] pub mod verif_c14;
+#[cfg(p2panda_p2panda_verif)] #[doc(hidden)] pub mod verif_c16;
